@@ -63,6 +63,15 @@ def surface_fn(name: str, fr: List[List[float]]):
     return (lambda p: o + p[0] * e1 + p[1] * (e2 + 0.5 * e3)), (lambda q: local(q)[2] - 0.5 * local(q)[1])
 
 
+def helix_curve(fr):
+    """an arbitrary user function: a helix in a general frame, parameter 0 … 2π"""
+    import numpy as np
+    from classy_blocks.construct.curves.analytic import AnalyticCurve
+
+    o, e1, e2, e3 = (np.array(x) for x in fr)
+    return AnalyticCurve(lambda t: o + 2 * math.cos(t) * e1 + 3 * math.sin(t) * e2 + 0.5 * t * e3, (0, 2 * math.pi))
+
+
 class C17(core.Check):
     pid = "C17"
     props_module = "CBV.Props.C17"
@@ -157,6 +166,43 @@ class C17(core.Check):
                 params = [str(Fr(rng.randint(1, 9), 10)) for _ in range(3)]
             pos = base if on else add(base, fr.D(0, 0, Fr(1, 4)) if ck != "circle" else fr.D(0, 0, Fr(1, 2)))
             cases.append({"kind": "curve", "curve": curve, "pos": S(pos), "on": on, "params": params, "frame": [fl(fr.o)] + [fl(e) for e in fr.e]})
+        # Round 2: clamps created with a user-supplied starting estimate (initial_param / initial_params) that is
+        # only near the right parameter: the clamp must still report the creation position / its closest point
+        for _ in range(12 * mult):
+            fr = Frame(rng)
+            ck = rng.choice(["line", "circle", "helix", "helix"])
+            on = rng.random() < 0.5
+            frame = [fl(fr.o)] + [fl(e) for e in fr.e]
+            if ck == "line":
+                a, b = fr.P(0, 0, 0), fr.P(4, 1, 0)
+                curve = {"c": "line", "p1": S(a), "p2": S(b), "b": ["0", "1"]}
+                base = add(a, mul(Fr(rng.randint(3, 7), 10), sub(b, a)))
+                off = fr.D(0, 0, Fr(1, 4))
+            elif ck == "circle":
+                o = fr.P(0, 0, 0)
+                curve = {"c": "circle", "o": S(o), "rim": S(fr.P(2, 0, 0)), "n": S(fr.D(0, 0, rng.choice([1, 3])))}
+                base = add(o, mat_vec(quat_matrix(rng.choice([1, 2]), fr.D(0, 0, 1)), fr.D(2, 0, 0)))
+                off = fr.D(0, 0, Fr(1, 2))
+            else:
+                t0 = rng.choice([Fr(3, 2), Fr(2), Fr(3), Fr(4)])
+                curve = {"c": "helix"}
+                base = [Fr(c) for c in (fr.P(0, 0, 0)[i] + Fr(2 * math.cos(t0)) * fr.e[0][i] + Fr(3 * math.sin(t0)) * fr.e[1][i] + Fr(0.5 * float(t0)) * fr.e[2][i] for i in range(3))]
+                off = fr.D(Fr(1, 5), Fr(1, 10), Fr(-3, 20))
+            pos = base if on else add(base, off)
+            cases.append({"kind": "curve", "curve": curve, "pos": S(pos), "on": on, "params": [], "frame": frame, "est": rng.choice([-1, 1]) * rng.choice([0.04, 0.06])})
+        for _ in range(8 * mult):
+            fr = Frame(rng)
+            cases.append(
+                {
+                    "kind": "surface",
+                    "surface": rng.choice(["paraboloid", "cylinder", "sheared"]),
+                    "frame": [fl(fr.o)] + [fl(e) for e in fr.e],
+                    "uv0": [rng.uniform(-1.2, 1.2), rng.uniform(-1.2, 1.2)],
+                    "off": 0.0 if rng.random() < 0.6 else rng.choice([0.2, -0.3]),
+                    "uvs": [],
+                    "est": [rng.choice([-0.3, 0.3]), rng.choice([-0.2, 0.2])],
+                }
+            )
         for _ in range(16 * mult):
             fr = Frame(rng)
             name = rng.choice(["paraboloid", "cylinder", "sheared"])
@@ -202,6 +248,18 @@ class C17(core.Check):
                 else:
                     moves.append({"to": S(add(o, fr.D(rq(rng, 1, 4), rq(rng, 1, 3) * rng.choice([1, -1]), rq(rng, -3, 3))))})
             cases.append({"kind": "rlink", "axis": S(axis), "o": S(o), "leader": S(leader), "follower": S(follower), "moves": moves})
+        # Round 2: histories — after the first move the caller may move the leader array in place
+        # (leader += d, leader[:] = p, leader[i] = x) before the next update()
+        for c in cases:
+            if c["kind"] in ("tlink", "slink", "rlink") and c["moves"]:
+                if len(c["moves"]) == 1 and c["kind"] != "slink":
+                    c["moves"] = c["moves"] * 2 if c["kind"] != "rlink" else c["moves"] + [dict(c["moves"][0])]
+                    if c["kind"] != "rlink":
+                        c["moves"][1] = S(rvec(rng, -9, 9))
+                    elif "w" in c["moves"][1]:
+                        c["moves"][1]["w"] = str(int(c["moves"][1]["w"]) + 2)
+                first_free = 0 if c["kind"] == "slink" and not c.get("int_leader") else 1
+                c["how"] = ["assign" if i < first_free else rng.choice(["assign", "iadd", "slice", "index"]) for i in range(len(c["moves"]))]
         # documented rejection: leader on the axis
         for _ in range(3):
             fr = Frame(rng)
@@ -274,8 +332,14 @@ class C17(core.Check):
                 out["positions"].append(fl(clamp.position))
             return out
         if k == "curve":
-            curve = build_curve(case["curve"])
-            clamp = cb.CurveClamp(FV(case["pos"]), curve)
+            curve = build_curve(case["curve"]) if case["curve"]["c"] != "helix" else helix_curve(case["frame"])
+            lo, hi = float(curve.bounds[0]), float(curve.bounds[1])
+            est = None
+            if case.get("est") is not None:
+                # a user-supplied starting estimate: near the right parameter, not equal to it
+                est = min(max(float(curve.get_closest_param(FV(case["pos"]))) + case["est"] * (hi - lo), lo), hi)
+            out["estimate"] = est
+            clamp = cb.CurveClamp(FV(case["pos"]), curve, est)
             out["initial"] = fl(clamp.position)
             out["param0"] = float(clamp.params[0])
             out["positions"] = []
@@ -294,7 +358,10 @@ class C17(core.Check):
             fn, resid = surface_fn(case["surface"], case["frame"])
             e3 = np.array(case["frame"][3])
             pos = np.asarray(fn(case["uv0"])) + case["off"] * e3
-            clamp = ParametricSurfaceClamp(pos, fn, [[-3, 3], [-3, 3]], list(case["uv0"]) if case["off"] == 0 else None)
+            guess = list(case["uv0"]) if case["off"] == 0 else None
+            if case.get("est") is not None:
+                guess = [case["uv0"][0] + case["est"][0], case["uv0"][1] + case["est"][1]]
+            clamp = ParametricSurfaceClamp(pos, fn, [[-3, 3], [-3, 3]], guess)
             out["pos"] = fl(pos)
             out["initial"] = fl(clamp.position)
             out["resid0"] = float(resid(clamp.position))
@@ -360,8 +427,21 @@ class C17(core.Check):
                 owned = np.array(FV(m["to"]))
             else:
                 owned = np.array(FV(m))
+            how = (case.get("how") or ["assign"] * len(case["moves"]))[len(out["steps"])]
+            if how != "assign" and link.leader.dtype.kind == "f":
+                # the caller keeps the array it gave to the link and moves it in place
+                target, owned = owned, link.leader
+                if how == "iadd":
+                    owned += target - owned
+                    owned[:] = target  # exactly the target (the sum may be off by a rounding error)
+                elif how == "slice":
+                    owned[:] = target
+                else:
+                    for i in range(3):
+                        owned[i] = target[i]
+            else:
+                link.leader = owned  # what Grid.update does with the clamp position
             snap = np.copy(owned)
-            link.leader = owned  # what Grid.update does with the clamp position
             link.update()
             out["steps"].append(observe(link, owned, snap))
         return out
@@ -557,18 +637,22 @@ class C17(core.Check):
                 if bad:
                     out.append({"site": f"CurveClamp:{ck}:position-off-curve", "what": f"local coordinates {(x, y, z)}", "observed": p})
                     break
+            est = ":with-estimate" if case.get("est") is not None else ""
             if impl["reported_dist"] > impl["scan_min"] + 1e-4 * sc:
-                out.append({"site": f"CurveClamp:{ck}:initial-position", "what": f"reported point at distance {impl['reported_dist']}, a scan of the curve finds {impl['scan_min']}", "observed": impl["initial"]})
+                out.append({"site": f"CurveClamp:{ck}:initial-position{est}", "what": (f"initial_param={impl.get('estimate')}: " if est else "") + f"reported point at distance {impl['reported_dist']}, a scan of the curve finds {impl['scan_min']}", "observed": impl["initial"]})
             if case["on"] and impl["reported_dist"] > 1e-4 * sc:
-                out.append({"site": f"CurveClamp:{ck}:initial-position:on-curve", "what": f"created on the curve but reports a point {impl['reported_dist']} away", "observed": impl["initial"]})
+                out.append({"site": f"CurveClamp:{ck}:initial-position:on-curve{est}", "what": f"created on the curve but reports a point {impl['reported_dist']} away", "observed": impl["initial"]})
         elif k == "surface":
             sc = _scale(impl["pos"])
             for rres, p in zip([impl["resid0"]] + impl["resids"], [impl["initial"]] + impl["positions"]):
                 if abs(rres) > 1e-9 * sc * sc:
                     out.append({"site": f"ParametricSurfaceClamp:{case['surface']}:position-off-surface", "what": f"implicit equation residual {rres}", "observed": p})
                     break
+            est = ":with-estimate" if case.get("est") is not None else ""
+            if case["off"] == 0 and impl["reported_dist"] > 1e-3 * sc:
+                out.append({"site": f"ParametricSurfaceClamp:{case['surface']}:initial-position:on-surface{est}", "what": f"created on the surface but reports a point {impl['reported_dist']} away", "observed": impl["initial"]})
             if impl["reported_dist"] > impl["scan_min"] + 1e-3 * sc:
-                out.append({"site": f"ParametricSurfaceClamp:{case['surface']}:initial-position", "what": f"reported point at distance {impl['reported_dist']}, a scan of the surface finds {impl['scan_min']}"})
+                out.append({"site": f"ParametricSurfaceClamp:{case['surface']}:initial-position{est}", "what": f"reported point at distance {impl['reported_dist']}, a scan of the surface finds {impl['scan_min']}"})
         elif k == "free":
             if not _near(FV(case["pos"]), impl["initial"], 1e-12):
                 out.append({"site": "FreeClamp:initial-position", "what": "does not report its creation position", "observed": impl["initial"]})
@@ -639,11 +723,13 @@ class C17(core.Check):
         if k in ("line", "plane"):
             return f"{k}:" + ("on" if case["on"] else "off") + (":bounds" if case.get("bounds") else "")
         if k == "curve":
-            return f"curve:{case['curve']['c']}:" + ("on" if case["on"] else "off")
+            return f"curve:{case['curve']['c']}:" + ("on" if case["on"] else "off") + (":estimate" if case.get("est") is not None else "")
         if k == "surface":
-            return f"surface:{case['surface']}:" + ("on" if case["off"] == 0 else "off")
+            return f"surface:{case['surface']}:" + ("on" if case["off"] == 0 else "off") + (":estimate" if case.get("est") is not None else "")
+        if k in ("tlink", "slink") and any(h != "assign" for h in case.get("how", [])):
+            return k + ":in-place-moves"
         if k == "rlink":
-            return "rlink:" + "+".join(sorted({"exact" if "w" in m else "general" for m in case["moves"]}) or ["on-axis"])
+            return "rlink:" + "+".join(sorted({"exact" if "w" in m else "general" for m in case["moves"]}) or ["on-axis"]) + (":in-place-moves" if any(h != "assign" for h in case.get("how", [])) else "")
         return k
 
     def nontrivial_key(self, case, impl):
